@@ -14,7 +14,7 @@
                     lower bounds  the published front inequality of the property statement. *)
 From Coq Require Import Reals List ZArith.
 Import ListNotations.
-From PV Require Import Base.RList Gen.Problems Model.ProblemsRef Proofs.ProblemsProofs Proofs.ProblemsDTLZ Proofs.ProblemsUF Proofs.ProblemsWFG.
+From PV Require Import Base.RList Gen.Problems Model.ProblemsRef Proofs.ProblemsProofs Proofs.ProblemsDTLZ Proofs.ProblemsUF Proofs.ProblemsWFG Proofs.ProblemsWFGT Proofs.ProblemsWFGP.
 Open Scope R_scope.
 
 (* ------------------------------------------------------------------ ZDT1-4, ZDT6: every n >= 2 (the constructors fix n = 30, 30, 30, 10, 10) *)
@@ -220,3 +220,80 @@ Theorem c18_wfg_concave_sumsq : forall t, (1 <= length t)%nat -> big_sum (fun m0
 Proof. exact concave_sumsq. Qed.
 Theorem c18_wfg_lower_partial : forall t, (1 <= length t)%nat -> in01 t -> 1 <= wfg_scaled_sumsq (fn_WFG4_shape_eval t).
 Proof. exact wfg_lower_partial. Qed.
+
+(* ------------------------------------------------------------------ WFG4-9: the property clause sum_m (f_m/2m)^2 >= 1 on the TRANSLATED evaluate pipelines
+   (normalize_z, the _WFGn_t* transformations incl. map/functools.partial, _subvector, _r_sum, _r_nonsep, then the shape stage).
+   wfg_box z: 0 <= z_i <= 2i.  self.k = nobjs - 1 and self.m = nobjs are resolved from the constructors.
+   The range lemmas (each transformation maps [0,1] into [0,1]) are proved for s_linear, s_multi, s_decept, b_param, r_sum,
+   and r_nonsep with A = 1; _correct_to_01 is modelled literally (EPSILON = 2^-52).
+   WFG4, 5, 7, 8: FULL, for every nobjs, nvars : Z and every in-bounds z (no length hypothesis is needed: out-of-range reads are the
+   side conditions of *_defined, not of this inequality). *)
+Theorem c18_wfg4_lower : forall nobjs nvars z, wfg_box z -> 1 <= wfg_scaled_sumsq (WFG4_eval nobjs nvars z).
+Proof. exact wfg4_lower. Qed.
+Theorem c18_wfg5_lower : forall nobjs nvars z, wfg_box z -> 1 <= wfg_scaled_sumsq (WFG5_eval nobjs nvars z).
+Proof. exact wfg5_lower. Qed.
+Theorem c18_wfg7_lower : forall nobjs nvars z, wfg_box z -> 1 <= wfg_scaled_sumsq (WFG7_eval nobjs nvars z).
+Proof. exact wfg7_lower. Qed.
+Theorem c18_wfg8_lower : forall nobjs nvars z, wfg_box z -> 1 <= wfg_scaled_sumsq (WFG8_eval nobjs nvars z).
+Proof. exact wfg8_lower. Qed.
+(* WFG6, WFG9: PARTIAL.  FULL STATEMENT (not proved):  forall M >= 2, M - 1 <= |z|, wfg_box z -> 1 <= wfg_scaled_sumsq (WFGk_eval M nvars z).
+   Missing lemma, taken as the explicit premise r_nonsep_full_range:
+      forall y, in01 y -> 0 <= fn_r_nonsep_eval y (zlen y) <= 1
+   i.e. sum_j y_j + sum_{i<>j} |y_i - y_j| <= ceil(n/2) (1 + 2n - 2 ceil(n/2)) on [0,1]^n (numerically confirmed on all vertices and random points
+   for n <= 10; the oracle checks the WFG6/WFG9 inequality on the real code).  Everything else of the two pipelines is proved. *)
+Theorem c18_wfg6_lower_partial : r_nonsep_full_range -> forall M nvars z, (2 <= M)%Z -> (M - 1 <= zlen z)%Z -> wfg_box z ->
+  1 <= wfg_scaled_sumsq (WFG6_eval M nvars z).
+Proof. exact wfg6_lower_partial. Qed.
+Theorem c18_wfg9_lower_partial : r_nonsep_full_range -> forall M nvars z, (2 <= M)%Z -> (M - 1 <= zlen z)%Z -> wfg_box z ->
+  1 <= wfg_scaled_sumsq (WFG9_eval M nvars z).
+Proof. exact wfg9_lower_partial. Qed.
+(* the range lemmas themselves *)
+Theorem c18_s_linear_range : forall y, 0 <= y <= 1 -> 0 <= fn_s_linear_eval y (7 / 20) <= 1.
+Proof. exact s_linear_range. Qed.
+Theorem c18_s_multi_range : forall y A B, 0 <= y <= 1 -> 0 <= B -> 0 <= fn_s_multi_eval y A B (7 / 20) <= 1.
+Proof. exact s_multi_range. Qed.
+Theorem c18_s_decept_range : forall y, 0 <= y <= 1 -> 0 <= fn_s_decept_eval y (7 / 20) (1 / 1000) (1 / 20) <= 1.
+Proof. exact s_decept_range. Qed.
+Theorem c18_b_param_range : forall y u, 0 <= y <= 1 -> 0 <= u <= 1 -> 0 <= fn_b_param_eval y u (49 / 50 / (2499 / 50)) (1 / 50) 50 <= 1.
+Proof. exact b_param_range. Qed.
+Theorem c18_r_sum_range : forall y w, in01 y -> (forall i, 0 <= py_nth w i) -> 0 <= fn_r_sum_eval y w <= 1.
+Proof. exact r_sum_range. Qed.
+Theorem c18_r_nonsep_1_range : forall y, in01 y -> 0 <= fn_r_nonsep_eval y 1 <= 1.
+Proof. exact r_nonsep_1_range. Qed.
+
+(* UF1-4, UF7 raise no Python exception on in-bounds input (only 0 <= x_1 is needed; n >= 3 keeps both index sets non-empty) *)
+Theorem c18_uf1_defined : forall (n : nat) x, (3 <= n)%nat -> length x = n -> 0 <= X x 0 -> UF1_defined 2 (Z.of_nat n) x.
+Proof. exact uf1_defined. Qed.
+Theorem c18_uf2_defined : forall (n : nat) x, (3 <= n)%nat -> length x = n -> 0 <= X x 0 -> UF2_defined 2 (Z.of_nat n) x.
+Proof. exact uf2_defined. Qed.
+Theorem c18_uf3_defined : forall (n : nat) x, (3 <= n)%nat -> length x = n -> 0 <= X x 0 -> UF3_defined 2 (Z.of_nat n) x.
+Proof. exact uf3_defined. Qed.
+Theorem c18_uf4_defined : forall (n : nat) x, (3 <= n)%nat -> length x = n -> UF4_defined 2 (Z.of_nat n) x.
+Proof. exact uf4_defined. Qed.
+Theorem c18_uf7_defined : forall (n : nat) x, (3 <= n)%nat -> length x = n -> 0 <= X x 0 -> UF7_defined 2 (Z.of_nat n) x.
+Proof. exact uf7_defined. Qed.
+
+(* ------------------------------------------------------------------ UF5, UF6 and the constrained CF1, CF3 (CEC 2009), every n >= 3:
+   generated objectives (and, for CF, the generated constraint value) = published formulas; exactly 2 objectives / 1 constraint *)
+Theorem c18_uf5_gen_eq_ref : forall (n : nat) x, (3 <= n)%nat -> length x = n -> UF5_eval 2 (Z.of_nat n) x = uf5_ref x.
+Proof. exact uf5_gen_eq_ref. Qed.
+Theorem c18_uf6_gen_eq_ref : forall (n : nat) x, (3 <= n)%nat -> length x = n -> UF6_eval 2 (Z.of_nat n) x = uf6_ref x.
+Proof. exact uf6_gen_eq_ref. Qed.
+Theorem c18_uf5_out_length : forall (n : nat) x, (3 <= n)%nat -> length x = n -> length (UF5_eval 2 (Z.of_nat n) x) = 2%nat.
+Proof. exact uf5_out_length. Qed.
+Theorem c18_uf6_out_length : forall (n : nat) x, (3 <= n)%nat -> length x = n -> length (UF6_eval 2 (Z.of_nat n) x) = 2%nat.
+Proof. exact uf6_out_length. Qed.
+Theorem c18_cf1_gen_eq_ref : forall (n : nat) x, (3 <= n)%nat -> length x = n -> CF1_eval 2 (Z.of_nat n) x = cf1_objs x.
+Proof. exact cf1_gen_eq_ref. Qed.
+Theorem c18_cf1_constr_gen_eq_ref : forall (n : nat) x, (3 <= n)%nat -> length x = n -> CF1_constr_eval 2 (Z.of_nat n) x = cf1_constr x.
+Proof. exact cf1_constr_gen_eq_ref. Qed.
+Theorem c18_cf3_gen_eq_ref : forall (n : nat) x, (3 <= n)%nat -> length x = n -> CF3_eval 2 (Z.of_nat n) x = cf3_objs x.
+Proof. exact cf3_gen_eq_ref. Qed.
+Theorem c18_cf3_constr_gen_eq_ref : forall (n : nat) x, (3 <= n)%nat -> length x = n -> CF3_constr_eval 2 (Z.of_nat n) x = cf3_constr x.
+Proof. exact cf3_constr_gen_eq_ref. Qed.
+Theorem c18_cf1_out_length : forall (n : nat) x, (3 <= n)%nat -> length x = n ->
+  length (CF1_eval 2 (Z.of_nat n) x) = 2%nat /\ length (CF1_constr_eval 2 (Z.of_nat n) x) = 1%nat.
+Proof. exact cf1_out_length. Qed.
+Theorem c18_cf3_out_length : forall (n : nat) x, (3 <= n)%nat -> length x = n ->
+  length (CF3_eval 2 (Z.of_nat n) x) = 2%nat /\ length (CF3_constr_eval 2 (Z.of_nat n) x) = 1%nat.
+Proof. exact cf3_out_length. Qed.
